@@ -35,7 +35,8 @@ def methodModKinds : List Kind := memberModKinds ++ [Kind.External, Kind.Forward
 
 /-- tokens that end a statement list (or a method) -/
 def stmtEnds : List Kind :=
-  [Kind.EndIf, Kind.Else, Kind.ElseIf, Kind.EndWhile, Kind.EndLoop, Kind.EndFor, Kind.Until, Kind.End, Kind.EndProc, Kind.EndFunc]
+  [Kind.EndIf, Kind.Else, Kind.ElseIf, Kind.EndWhile, Kind.EndLoop, Kind.EndFor, Kind.Until, Kind.When, Kind.EndWhen,
+   Kind.EndSwitch, Kind.End, Kind.EndProc, Kind.EndFunc]
 
 /-- first tokens of the statement parsers that are tried before assignment / expression -/
 def stmtKw : List Kind :=
@@ -267,6 +268,39 @@ def absWfb : Option (Tok × Tok) → Bool
   | none => true
   | some (a, x) => a.kind == Kind.Absolute && identKinds.contains x.kind
 
+/-- the values of a `when`: `lo to hi` over literals, or `v, w, …` over literals and identifiers -/
+inductive WhenVals where
+  | range (lo to hi : Tok)
+  | list (first : Tok) (rest : List (Tok × Tok))
+
+def WhenVals.toks : WhenVals → List Tok
+  | .range lo to hi => [lo, to, hi]
+  | .list first rest => first :: commaToks rest
+
+def WhenVals.tree : WhenVals → Tree
+  | .range lo to hi => binNode (terminal (.leaf lo)) (.leaf to) (terminal (.leaf hi))
+  | .list first rest =>
+    mk "set_literal" "set_literal" (Range.span first.rng (((usesIds first rest).getLast?).getD first).rng)
+      ((usesIds first rest).map (fun t => terminal (.leaf t)))
+
+def valKindOK (k : Kind) : Bool := litKinds.contains k || identKinds.contains k
+
+def valsWF : List (Tok × Tok) → Prop
+  | [] => True
+  | (c, t) :: rest => c.kind = Kind.Comma ∧ valKindOK t.kind = true ∧ valsWF rest
+
+def valsWfb : List (Tok × Tok) → Bool
+  | [] => true
+  | (c, t) :: rest => c.kind == Kind.Comma && valKindOK t.kind && valsWfb rest
+
+def WhenVals.WF : WhenVals → Prop
+  | .range lo to hi => lo.kind ∈ litKinds ∧ to.kind = Kind.To ∧ hi.kind ∈ litKinds
+  | .list first rest => valKindOK first.kind = true ∧ valsWF rest
+
+def WhenVals.wfb : WhenVals → Bool
+  | .range lo to hi => litKinds.contains lo.kind && to.kind == Kind.To && litKinds.contains hi.kind
+  | .list first rest => valKindOK first.kind && valsWfb rest
+
 /-! ## statements -/
 
 mutual
@@ -299,6 +333,10 @@ inductive Stmt (ε : Type) where
   | foreachS (kw : Tok) (e : ε) (body : List (Stmt ε)) (endT : Tok)
   /-- `repeat … until c` -/
   | repeatS (kw : Tok) (body : List (Stmt ε)) (untilT : Tok) (c : ε)
+  /-- `switch e (when vals … endwhen)* [else …] endswitch` (`elseBody` is empty when there is no `else`) -/
+  | switchS (kw : Tok) (e : ε) (whens : List (WhenB ε)) (els : Option Tok) (elseBody : List (Stmt ε)) (endT : Tok)
+inductive WhenB (ε : Type) where
+  | mk (kw : Tok) (vals : WhenVals) (body : List (Stmt ε)) (endT : Tok)
 inductive IfTail (ε : Type) where
   | endif (t : Tok)
   | els (t : Tok) (body : List (Stmt ε)) (endT : Tok)
@@ -329,6 +367,13 @@ def Stmt.toks : Stmt ε → List Tok
     kw :: var :: eq :: (X.toks lo ++ to :: (X.toks hi ++ (stepToks X step ++ (Stmts.toks body ++ [endT]))))
   | .foreachS kw e body endT => kw :: (X.toks e ++ (Stmts.toks body ++ [endT]))
   | .repeatS kw body untilT c => kw :: (Stmts.toks body ++ untilT :: X.toks c)
+  | .switchS kw e whens els elseBody endT =>
+    kw :: (X.toks e ++ (Whens.toks whens ++ (els.toList ++ (Stmts.toks elseBody ++ [endT]))))
+def WhenB.toks : WhenB ε → List Tok
+  | .mk kw vals body endT => kw :: (vals.toks ++ (Stmts.toks body ++ [endT]))
+def Whens.toks : List (WhenB ε) → List Tok
+  | [] => []
+  | w :: rest => w.toks ++ Whens.toks rest
 def Stmts.toks : List (Stmt ε) → List Tok
   | [] => []
   | s :: rest => s.toks ++ Stmts.toks rest
@@ -376,6 +421,17 @@ def Stmt.tree : Stmt ε → Tree
   | .repeatS kw body _ c =>
     mk "repeat" "repeat" (Range.span kw.rng (X.tree c).rng)
       [condBlock (Range.span kw.rng (X.tree c).rng) (some (X.tree c)) (Stmts.trees body)]
+  | .switchS kw e whens els elseBody endT =>
+    mk "switch" "switch" (Range.span kw.rng endT.rng)
+      ([X.tree e] ++ Whens.trees whens ++
+        (match els with
+         | some t => [mk "when" "when_block" (Range.span t.rng endT.rng) (Stmts.trees elseBody)]
+         | none => []))
+def WhenB.tree : WhenB ε → Tree
+  | .mk kw vals body endT => mk "when" "when_block" (Range.span kw.rng endT.rng) ([vals.tree] ++ Stmts.trees body)
+def Whens.trees : List (WhenB ε) → List Tree
+  | [] => []
+  | w :: rest => w.tree :: Whens.trees rest
 def Stmts.trees : List (Stmt ε) → List Tree
   | [] => []
   | s :: rest => s.tree :: Stmts.trees rest
@@ -421,6 +477,14 @@ def Stmt.WF : Stmt ε → Prop
     kw.kind = Kind.ForEach ∧ exprOKb X e = true ∧ firstKindOK (fun k => k != Kind.OQL && k != Kind.Comment) (X.toks e) = true ∧
     Stmts.WF body ∧ firstKindOK (fun k => k != Kind.Using) (Stmts.toks X body ++ [endT]) = true ∧ endT.kind = Kind.EndFor
   | .repeatS kw body untilT c => kw.kind = Kind.Repeat ∧ Stmts.WF body ∧ untilT.kind = Kind.Until ∧ exprOKb X c = true
+  | .switchS kw e whens els elseBody endT =>
+    kw.kind = Kind.Switch ∧ exprOKb X e = true ∧ Whens.WF whens ∧
+    (match els with | some t => t.kind = Kind.Else | none => elseBody = []) ∧ Stmts.WF elseBody ∧ endT.kind = Kind.EndSwitch
+def WhenB.WF : WhenB ε → Prop
+  | .mk kw vals body endT => kw.kind = Kind.When ∧ vals.WF ∧ Stmts.WF body ∧ endT.kind = Kind.EndWhen
+def Whens.WF : List (WhenB ε) → Prop
+  | [] => True
+  | w :: rest => w.WF ∧ Whens.WF rest
 def Stmts.WF : List (Stmt ε) → Prop
   | [] => True
   | s :: rest => s.WF ∧ Stmts.WF rest
@@ -451,6 +515,14 @@ def Stmt.wfb : Stmt ε → Bool
     kw.kind == Kind.ForEach && exprOKb X e && firstKindOK (fun k => k != Kind.OQL && k != Kind.Comment) (X.toks e) &&
     Stmts.wfb body && firstKindOK (fun k => k != Kind.Using) (Stmts.toks X body ++ [endT]) && endT.kind == Kind.EndFor
   | .repeatS kw body untilT c => kw.kind == Kind.Repeat && Stmts.wfb body && untilT.kind == Kind.Until && exprOKb X c
+  | .switchS kw e whens els elseBody endT =>
+    kw.kind == Kind.Switch && exprOKb X e && Whens.wfb whens &&
+    (match els with | some t => t.kind == Kind.Else | none => elseBody.isEmpty) && Stmts.wfb elseBody && endT.kind == Kind.EndSwitch
+def WhenB.wfb : WhenB ε → Bool
+  | .mk kw vals body endT => kw.kind == Kind.When && vals.wfb && Stmts.wfb body && endT.kind == Kind.EndWhen
+def Whens.wfb : List (WhenB ε) → Bool
+  | [] => true
+  | w :: rest => w.wfb && Whens.wfb rest
 def Stmts.wfb : List (Stmt ε) → Bool
   | [] => true
   | s :: rest => s.wfb && Stmts.wfb rest
